@@ -384,3 +384,161 @@ def eval_limit_block(prog: Program, F: 'IntegrateFacts', LB: 'LimitBlock'):
     except Undecided as exc:
         raise AnalysisError(f'limit block: {exc}') from exc
     return tree, ev, st
+
+
+# --------------------------------------------------------------------------------------
+# "multiple of the step" value classes (engine B: reaching definitions + a four-point lattice)
+# --------------------------------------------------------------------------------------
+
+class StepClasses:
+    """Classifies expressions of one function by what they are relative to two attributes of one object:
+    the record distance ``<base>.<dist>`` (assumed a multiple of the step on entry - the induction hypothesis) and the
+    step ``<base>.<step>``:
+
+        Z  zero            S  the step            M  a multiple of the step (distance + n * step, sums of such)
+        I  an integer      T  anything else
+
+    Locals take the join of their reaching definitions (least fixed point from below).  A store of class Z, S or M into
+    the record distance keeps it a multiple of the step."""
+
+    ORDER = {'B': 0, 'Z': 1, 'S': 1, 'I': 1, 'M': 2, 'T': 3}
+
+    def __init__(self, prog: Program, func: Func, base: str, dist: str, step: str):
+        self.prog, self.func, self.base, self.dist, self.step = prog, func, base, dist, step
+        self.cfg = CFG(func.node)
+        self.rd = reaching_definitions(self.cfg, list(func.params) + [f'{base}.{dist}', f'{base}.{step}'])
+        self.dcls: Dict[Tuple[int, str], str] = {}
+        changed = True
+        rounds = 0
+        while changed and rounds < 50:
+            changed = False
+            rounds += 1
+            for n in self.cfg.nodes:
+                for loc in defs_of(n):
+                    new = self._def_class(n, loc)
+                    if self.dcls.get((n.id, loc), 'B') != new:
+                        self.dcls[(n.id, loc)] = new
+                        changed = True
+
+    @staticmethod
+    def join(a: str, b: str) -> str:
+        if a == 'B':
+            return b
+        if b == 'B':
+            return a
+        if a == b:
+            return a
+        if 'T' in (a, b):
+            return 'T'
+        if 'I' in (a, b):
+            return 'I' if set((a, b)) == {'I', 'Z'} else 'T'
+        return 'M'          # Z, S, M mixed: a multiple of the step
+
+    def _def_class(self, n: Node, loc: str) -> str:
+        a = n.ast
+        if isinstance(a, ast.Assign) and len(a.targets) == 1 and loc_of(a.targets[0]) == loc:
+            return self.expr(a.value, n)
+        if isinstance(a, ast.AnnAssign) and a.value is not None and loc_of(a.target) == loc:
+            return self.expr(a.value, n)
+        if isinstance(a, ast.AugAssign) and loc_of(a.target) == loc:
+            return self._bin(a.op, self.loc_class(loc, n), self.expr(a.value, n))
+        if isinstance(a, ast.Assign) and len(a.targets) == 1 and isinstance(a.targets[0], (ast.Tuple, ast.List)) \
+                and isinstance(a.value, (ast.Tuple, ast.List)) and len(a.value.elts) == len(a.targets[0].elts):
+            for t, v in zip(a.targets[0].elts, a.value.elts):
+                if loc_of(t) == loc:
+                    return self.expr(v, n)
+        return 'T'
+
+    def loc_class(self, loc: str, n: Node) -> str:
+        ds = self.rd[n.id].get(loc, set())
+        if not ds:
+            ds = {self.cfg.entry.id}
+        out = 'B'
+        for d in ds:
+            if d == self.cfg.entry.id:
+                if loc == f'{self.base}.{self.dist}':
+                    c = 'M'
+                elif loc == f'{self.base}.{self.step}':
+                    c = 'S'
+                else:
+                    c = 'T'
+            else:
+                c = self.dcls.get((d, loc), 'B')
+            out = self.join(out, c)
+        # a definition of a prefix (self = ...) makes everything below unknown
+        for k, ds2 in self.rd[n.id].items():
+            if loc.startswith(k + '.') and any(d != self.cfg.entry.id for d in ds2):
+                return 'T'
+        return out
+
+    def _bin(self, op, l: str, r: str) -> str:
+        if 'B' in (l, r):
+            return 'B'
+        mult = {'Z', 'S', 'M'}
+        if isinstance(op, (ast.Add, ast.Sub)):
+            if l == 'Z' and r == 'Z':
+                return 'Z'
+            if l in mult and r in mult:
+                return 'M'
+            if l in ('I', 'Z') and r in ('I', 'Z'):
+                return 'I'
+            return 'T'
+        if isinstance(op, ast.Mult):
+            if 'Z' in (l, r):
+                return 'Z'
+            if (l == 'I' and r in mult) or (r == 'I' and l in mult):
+                return 'M'
+            if l == 'I' and r == 'I':
+                return 'I'
+            return 'T'
+        if isinstance(op, ast.FloorDiv):
+            return 'I'
+        return 'T'
+
+    def expr(self, e: ast.AST, n: Node) -> str:
+        if isinstance(e, ast.Constant):
+            if isinstance(e.value, bool):
+                return 'T'
+            if isinstance(e.value, (int, float)):
+                if e.value == 0:
+                    return 'Z'
+                return 'I' if float(e.value).is_integer() else 'T'
+            return 'T'
+        l = loc_of(e)
+        if l is not None:
+            if isinstance(e, ast.Name) and l not in self.rd[n.id] and l not in self.func.params:
+                v = C.const_number(self.prog, self.func.module, l)
+                if v is not None:
+                    return 'Z' if v == 0 else ('I' if float(v).is_integer() else 'T')
+            return self.loc_class(l, n)
+        if isinstance(e, ast.BinOp):
+            return self._bin(e.op, self.expr(e.left, n), self.expr(e.right, n))
+        if isinstance(e, ast.UnaryOp) and isinstance(e.op, (ast.USub, ast.UAdd)):
+            c = self.expr(e.operand, n)
+            return 'M' if c == 'S' and isinstance(e.op, ast.USub) else c
+        if isinstance(e, ast.IfExp):
+            return self.join(self.expr(e.body, n), self.expr(e.orelse, n))
+        if isinstance(e, ast.Call) and not e.keywords:
+            name = (dotted(e.func) or '').split('.')[-1]
+            if name in ('floor', 'ceil', 'int', 'round', 'trunc') and len(e.args) == 1:
+                return 'I'
+            if name in ('max', 'min') and e.args:
+                out = 'B'
+                for a_ in e.args:
+                    out = self.join(out, self.expr(a_, n))
+                return out
+            if name == 'float' and len(e.args) == 1:
+                return self.expr(e.args[0], n)
+        return 'T'
+
+    def store_class(self, store_node: ast.AST) -> Optional[str]:
+        """Class of the value an attribute store puts into <base>.<dist> (None when the node is not such a store)."""
+        for n in self.cfg.nodes:
+            a = n.ast
+            if a is None:
+                continue
+            if any(x is store_node for x in ast.walk(a) if isinstance(x, ast.Attribute)):
+                loc = loc_of(store_node)
+                if loc in defs_of(n):
+                    return self._def_class(n, loc)
+        return None
